@@ -108,11 +108,9 @@ def rel_or_abs_import(module: str) -> ModuleType:
         path, module = os.path.split(path)
     if module.endswith(".py"):
         module = module[:-3]
-    if path:
-        # full path given, try that
-        sys.path.append(os.path.realpath(path))
-    else:
-        sys.path.append(os.path.realpath("."))
+    # full path given, try that; otherwise the current directory
+    search_dir = os.path.realpath(path if path else ".")
+    sys.path.append(search_dir)
     try:
         return importlib.import_module(module)
     except ImportError:
@@ -122,7 +120,12 @@ def rel_or_abs_import(module: str) -> ModuleType:
             log.error("From: %s", __file__)
             raise
     finally:
-        sys.path.pop()
+        # Take back our own entry only. The imported module may have changed sys.path
+        # itself, so it is not necessarily the last one any more.
+        for idx in range(len(sys.path) - 1, -1, -1):
+            if sys.path[idx] == search_dir:
+                del sys.path[idx]
+                break
     # if we have not returned or raised by now, the import was unsuccessful and module
     # was a name only also try to import from 'interestingness'
     try:
